@@ -171,6 +171,22 @@ CHECKS = {
     note="Trusted: TLC; harness/idsrig.py (adversary + projection). Unsegmented frames only (the lookup code is shared with segmented ones, "
          "whose state machines are C04/C05). Exhaustive in a reduced ID space; the real modulus by trace validation.",
     technique="TLA+ spec (TSMids.tla) + TLC exhaustive with adversarial delivery; state-graph replay; TLC trace validation of recorded real executions"),
+ "C15": dict(
+    category="model_checking",
+    text="ObjStore.tla models a typed property store (scalars, read-only, arrays, fixed arrays, arrays of constructed elements, lists, absent "
+         "optionals) with Read / Write / RPM (all / required / optional) / Scan and the result mapping the property states; the step formulas "
+         "ReadYourWrite, RefusalChangesNothing, MatchingError, ArrayIndexing, RPMEqualsRP depend on the store only and are checked by TLC on the "
+         "full closure of a 2-object x 5-property store (operation sequences of any length; 7.6 M steps); validate-after-assign (named "
+         "deviation) violates RefusalChangesNothing. Binding: walks of the graph are executed over the wire on a real device whose objects "
+         "realise the model's schema; random read/write/RPM sequences run over all 63 registered object classes (as declared and an "
+         "all-writable twin) with values generated from each property's datatype, wrong-typed values, every array index class and unknown "
+         "objects/properties; after every step a full ReadProperty read-back of every declared property is made over the wire; all executions "
+         "are judged by TLC (Trace_ObjStore.tla) against a schema regenerated from the working tree.",
+    design_ref="DESIGN.md 5 (C15), Appendix A.5",
+    note="Trusted: TLC, the client/device stack builder, the generic value generator (filtered by a round trip through the library's codec) "
+         "and the tokenisation of values by their encoded tag list. For a wrong datatype any refusal from a documented set is accepted; the "
+         "five unambiguous error codes are required. Commandable present values are C17's. Known finding F33.",
+    technique="TLA+ spec (ObjStore.tla) + TLC on the full closure of a small store; graph walks and random sequences over all object classes executed over the wire with full read-back; TLC trace validation"),
  "C16": dict(
     category="model_checking",
     text="COV.tla models subscriptions (subscriber, process id, object) with confirmed flag / lifetime / expiry, change detection against "
